@@ -19,10 +19,42 @@ def c19ParseRow (j : Json) : Except String TRow := do
 
 def parseTrace (j : Json) : Except String (List TRow) := do (← asList j).mapM c19ParseRow
 
-/-- presented coordinates of a leaf fiber given as [[coord, value], …] -/
-def presentedCoords (dflt : Int) (j : Json) : Except String (List Int) := do
+/-- presented coordinates of an operand of `a & b`:
+    * a leaf fiber `[[coord, value], …]` of a compressed rank presents its non-default elements;
+    * `{"u": [lo, hi], "leaf": …}`: a fiber whose rank has format "U" presents every coordinate
+      of its active range (0 .. declared shape, or 0 .. the estimate largest coordinate + 1, or
+      a restricted range), whatever it stores;
+    * `{"lazy": "and" | "sub", "x": leaf, "y": leaf}`: a lazy fiber presents what the
+      co-iteration yields (`andMerge` / `subMerge` of FtModel.Coiter). -/
+def leafCoords (dflt : Int) (j : Json) : Except String (List Int) := do
   let f ← parseTree 1 j
   pure ((present (κ := Int) dflt 0 f).map (·.1))
+
+def presentedCoords (dflt : Int) (j : Json) : Except String (List Int) := do
+  match j with
+  | .arr _ => leafCoords dflt j
+  | _ =>
+    match j.getObjVal? "u" with
+    | .ok u => do
+      -- [lo, hi): the active range (0 .. extent unless restricted)
+      match (← asInts u) with
+      | [lo, hi] => pure ((List.range (hi - lo).toNat).map (fun (i : Nat) => lo + Int.ofNat i))
+      | _ => throw "format-U operand: expected [lo, hi]"
+    | .error _ => do
+      let op ← fStr j "lazy"
+      let x := (← leafCoords dflt (← field j "x")).map (fun c => (c, ()))
+      let y := (← leafCoords dflt (← field j "y")).map (fun c => (c, ()))
+      match op with
+      | "and" => pure ((andMerge x y).map (·.1))
+      | "sub" => pure ((subMerge x y).map (·.1))
+      | _ => throw s!"lazy operand: unknown op {op}"
+
+def operandTag (j : Json) : List String :=
+  match j with
+  | .arr _ => []
+  | _ => match j.getObjVal? "u" with
+    | .ok _ => ["operand:format-U"]
+    | .error _ => ["operand:lazy"]
 
 def parseFiberIn (dflt : Int) (j : Json) : Except String FiberIn := do
   let oi ← asInts (← field j "oi")
@@ -86,6 +118,19 @@ def emptyCallTags (groups : List (List FiberIn)) : List String :=
 
 def c19Dedup (l : List String) : List String := l.foldl (fun acc s => if acc.contains s then acc else acc ++ [s]) []
 
+/-- tags describing how the harness built / drove the case (reported in the evidence) -/
+def variantTags (j : Json) : List String :=
+  (match fArr j "variant" with
+   | .ok l => l.filterMap (fun x => match x.getStr? with | .ok v => some ("variant:" ++ v) | _ => none)
+   | _ => []) ++
+  (match fArr j "groups" with
+   | .ok gs => gs.flatMap (fun g => match asList g with
+       | .ok fl => fl.flatMap (fun f =>
+           (match f.getObjVal? "a" with | .ok a => operandTag a | _ => []) ++
+           (match f.getObjVal? "b" with | .ok b => operandTag b | _ => []))
+       | _ => [])
+   | _ => [])
+
 def handleAnd (j : Json) : Except String Verdict := do
   let n ← fNat j "n"
   let dflt := fIntD j "dflt" 0
@@ -112,14 +157,16 @@ def handleAnd (j : Json) : Except String Verdict := do
   let agreeParts := [("points", ptsAgree), ("tf", decide (mtf = itf)), ("sa", decide (msa = isa)),
                      ("lf0", decide (some mlf0 = ilf0)), ("lf1", decide (some mlf1 = ilf1))]
   -- the specification on the implementation's observation
-  let dataRows := fun (sel : List TRow × List TRow → List TRow) =>
-    ((ib.map (fun b => ((sel b).filter (fun r => match r with | .hdr _ => false | _ => true)).length)).sum : Nat)
+  -- leader-follower model on an `intersect_i` trace of `a & b`: the elements that operand put on
+  -- display during the merge (consumed ones and the trailing one), from the coordinate lists alone
+  let usesA := ((fs.map (fun f => (andUses 0 f.a f.b).1.length)).sum : Nat)
+  let usesB := ((fs.map (fun f => (andUses 0 f.a f.b).2.length)).sum : Nat)
   let specParts := [("tf", decide (itf = some (tfSpecAll fs : Int))),
                     ("sa", decide (isa = some (saSpecAll fs : Int))),
-                    ("lf0", decide (ilf0 = some (dataRows (·.1) : Int))),
-                    ("lf1", decide (ilf1 = some (dataRows (·.2) : Int)))]
+                    ("lf0", decide (ilf0 = some (usesA : Int))),
+                    ("lf1", decide (ilf1 = some (usesB : Int)))]
   let bad := fun (l : List (String × Bool)) => (l.filter (fun p => !p.2)).map (·.1)
-  let tags := c19Dedup ([batchingTag groups, s!"ranks={n}"] ++ emptyCallTags groups ++ (fs.flatMap c19FiberTags) ++
+  let tags := c19Dedup ([batchingTag groups, s!"ranks={n}"] ++ emptyCallTags groups ++ variantTags j ++ (fs.flatMap c19FiberTags) ++
     (match dirtyKind' groups with | some k => [k] | none => []) ++
     (if rowsExact then ["rows-exact"] else ["rows-differ-outside-points"]))
   let model := Json.mkObj [("tf", totalJson mtf), ("sa", totalJson msa), ("lf0", jInt mlf0), ("lf1", jInt mlf1),
@@ -143,7 +190,7 @@ def handleLf (j : Json) : Except String Verdict := do
   let ptsAgree := decide (mb.map (traceView n) = ib.map (traceView n))
   let mlf := lfTotal mb
   let ilf := optTotal impl "lf"
-  let tags := c19Dedup ([batchingTag groups, s!"ranks={n}", "leader-follower"] ++ emptyCallTags groups ++
+  let tags := c19Dedup ([batchingTag groups, s!"ranks={n}", "leader-follower"] ++ emptyCallTags groups ++ variantTags j ++
     (if fs.any (fun f => f.a.isEmpty) then ["emptyA"] else []) ++
     (if decide (mb = ib) then ["rows-exact"] else ["rows-differ-outside-points"]))
   pure { agree := ptsAgree && decide (some mlf = ilf), spec := decide (ilf = some (lfSpecAll fs : Int)),
@@ -190,7 +237,7 @@ def handleSwaps (j : Json) : Except String Verdict := do
     | .fin l => swapsSpecFin e radix l depth sk
     | .inf => swapsSpecInf e radix depth sk
   let nodes := mergeNodes e depth t
-  let tags := c19Dedup ([s!"depth={depth}", s!"below={e}",
+  let tags := c19Dedup (variantTags j ++ [s!"depth={depth}", s!"below={e}",
       (match lat with | .inf => "lat=N" | .fin _ => "lat=int"),
       (match radix with | none => "radix=inf" | some _ => "radix=int")] ++
     (if allDefaultSub dflt e depth t then ["all-default-subfiber"] else []) ++
